@@ -1,78 +1,285 @@
-//! Record injection: a Kani stub for `mapping::parse_proguard_record` that
-//! serves records from a harness-provided array instead of parsing text.
+//! Record injection: the builders and folds are run on a harness-provided
+//! record stream instead of on parsed text (the parser is covered separately by
+//! the C05/C06 harnesses, and both consumers read nothing but the record stream).
 //!
-//! The position in the stream is carried by the *remaining slice length*
-//! exactly like the real iterator carries it by the remaining bytes, so cloned
-//! or peeked iterators stay independent. The dummy source has one byte per
-//! record. Stream items are `Result<ProguardRecord, ParseError>`, so error
-//! items can be injected too (the builders' `filter_map(Result::ok)` runs for
-//! real).
-use crate::mapping::{ParseError, ProguardRecord};
+//! Stream items are **plain structs** (kind + fields), and every
+//! `ProguardRecord` handed to the code under test is built as a fresh enum
+//! literal from them. Measured reasons (Kani 0.68 / CBMC 6.11): an enum value
+//! that was copied bytewise or cloned loses either its discriminant or its
+//! fields for CBMC's constant propagation (reads go through casts into the
+//! variant union), after which every string of a concrete stream is a symbolic
+//! pointer and the builders do not finish.
+//!
+//! The position in the stream is carried by the *remaining length* of the dummy
+//! source slice (one byte per item), exactly like the real iterator carries it
+//! by the remaining bytes, so cloned or peeked iterators stay independent.
+use crate::mapping::{LineMapping, ParseError, ProguardRecord};
 
-pub type Item = Result<ProguardRecord<'static>, ParseError<'static>>;
+pub const K_ERR: u8 = 0;
+pub const K_HEADER: u8 = 1;
+pub const K_CLASS: u8 = 2;
+pub const K_FIELD: u8 = 3;
+pub const K_METHOD: u8 = 4;
 
-pub static DUMMY: [u8; 64] = [b'x'; 64];
+/// A line mapping in plain form (`present == false`: the record has none).
+#[derive(Clone, Copy)]
+pub struct Lm {
+    pub present: bool,
+    pub s: usize,
+    pub e: usize,
+    pub has_os: bool,
+    pub os: usize,
+    pub has_oe: bool,
+    pub oe: usize,
+}
+
+pub const NO_LM: Lm = Lm { present: false, s: 0, e: 0, has_os: false, os: 0, has_oe: false, oe: 0 };
+
+impl Lm {
+    pub fn to_line_mapping(&self) -> Option<LineMapping> {
+        if self.present {
+            Some(LineMapping {
+                startline: self.s,
+                endline: self.e,
+                original_startline: if self.has_os { Some(self.os) } else { None },
+                original_endline: if self.has_oe { Some(self.oe) } else { None },
+            })
+        } else {
+            None
+        }
+    }
+}
+
+/// One stream item. Field use per kind:
+/// header: a = key, has_b/b = value; class: a = original, b = obfuscated;
+/// field: a = original, b = obfuscated; method: a = original, b = obfuscated,
+/// c = arguments, has_d/d = original class, lm; err: nothing.
+#[derive(Clone, Copy)]
+pub struct Item {
+    pub kind: u8,
+    pub a: &'static str,
+    pub has_b: bool,
+    pub b: &'static str,
+    pub c: &'static str,
+    pub has_d: bool,
+    pub d: &'static str,
+    pub lm: Lm,
+}
+
+const BLANK: Item = Item { kind: K_ERR, a: "", has_b: false, b: "", c: "", has_d: false, d: "", lm: NO_LM };
+
+impl Item {
+    pub fn is_class(&self) -> bool {
+        self.kind == K_CLASS
+    }
+    pub fn is_method(&self) -> bool {
+        self.kind == K_METHOD
+    }
+    pub fn is_member(&self) -> bool {
+        self.kind == K_METHOD || self.kind == K_FIELD
+    }
+    pub fn original_class(&self) -> Option<&'static str> {
+        if self.has_d {
+            Some(self.d)
+        } else {
+            None
+        }
+    }
+    /// The record as a fresh enum literal (None for an error item).
+    pub fn record(&self) -> Option<ProguardRecord<'static>> {
+        if self.kind == K_HEADER {
+            Some(ProguardRecord::Header { key: self.a, value: if self.has_b { Some(self.b) } else { None } })
+        } else if self.kind == K_CLASS {
+            Some(ProguardRecord::Class { original: self.a, obfuscated: self.b })
+        } else if self.kind == K_FIELD {
+            Some(ProguardRecord::Field { ty: "int", original: self.a, obfuscated: self.b })
+        } else if self.kind == K_METHOD {
+            // every Option below is written as a literal in its own branch: an Option
+            // produced by a helper function (or `if` expression) is merged by value and
+            // the niche that also holds ProguardRecord's discriminant stops being constant
+            let oc = self.has_d;
+            if !self.lm.present {
+                if oc {
+                    Some(ProguardRecord::Method { ty: "void", original: self.a, obfuscated: self.b, arguments: self.c, original_class: Some(self.d), line_mapping: None })
+                } else {
+                    Some(ProguardRecord::Method { ty: "void", original: self.a, obfuscated: self.b, arguments: self.c, original_class: None, line_mapping: None })
+                }
+            } else {
+                let lm = self.lm.to_line_mapping();
+                if oc {
+                    Some(ProguardRecord::Method { ty: "void", original: self.a, obfuscated: self.b, arguments: self.c, original_class: Some(self.d), line_mapping: lm })
+                } else {
+                    Some(ProguardRecord::Method { ty: "void", original: self.a, obfuscated: self.b, arguments: self.c, original_class: None, line_mapping: lm })
+                }
+            }
+        } else {
+            None
+        }
+    }
+}
 
 pub const CAP: usize = 56;
-const NO_ITEM: Option<Item> = None;
-static mut STREAM: [Option<Item>; CAP] = [NO_ITEM; CAP];
-static mut TOTAL: usize = 0x7e57_0001; // NB: a `static mut` initialised to 0usize gets aliased with constant allocations (Cap::ZERO) by Kani 0.68
+pub static DUMMY: [u8; CAP] = [b'x'; CAP];
 
-/// Install the stream (copied by value into a static); returns the dummy
-/// source bytes to build the mapping from.
+// NB: Kani 0.68 aliases a `static mut` whose initial value is all-zero bytes with
+// constant allocations holding 0usize (e.g. `Vec::new()`'s `Cap::ZERO`); writing it
+// then corrupts every empty Vec (and vice versa). Hence the distinctive non-zero
+// initial values (a non-null pointer, a non-zero count).
+static BLANK_ITEM: Item = BLANK;
+static mut RECS: *const Item = &BLANK_ITEM as *const Item;
+static mut TOTAL: usize = 0x7e57_0001;
+
+/// Install the stream (the array must outlive all uses of the mapping); returns
+/// the dummy source bytes to build the mapping from.
 pub fn set(recs: &[Item]) -> &'static [u8] {
     unsafe {
-        let mut i = 0;
-        while i < recs.len() {
-            STREAM[i] = Some(recs[i].clone());
-            i += 1;
-        }
+        RECS = recs.as_ptr();
         TOTAL = recs.len();
     }
-    &DUMMY[..recs.len()]
+    // (not `&DUMMY[..n]`: the generic slice-index machinery costs ~9k symex steps)
+    unsafe { core::slice::from_raw_parts(DUMMY.as_ptr(), recs.len()) }
 }
 
-pub fn item_at(idx: usize) -> Item {
-    unsafe {
-        match &STREAM[idx] {
-            Some(it) => it.clone(),
-            None => unreachable!(),
+pub fn item_at(idx: usize) -> &'static Item {
+    unsafe { &*RECS.add(idx) }
+}
+
+/// Kani stub with the exact signature of `mapping::parse_proguard_record`
+/// (used by the harnesses of the folds in mapping.rs, which consume the
+/// `Result` items of `ProguardMapping::iter()`).
+pub fn parse_stub(bytes: &[u8]) -> (Result<ProguardRecord, ParseError>, &[u8]) {
+    let total = unsafe { TOTAL };
+    let it = item_at(total - bytes.len());
+    let rest = unsafe { core::slice::from_raw_parts(bytes.as_ptr().add(1), bytes.len() - 1) };
+    match it.record() {
+        Some(r) => (Ok(r), rest),
+        None => (Err(crate::mapping::verif_harness::parse_error_item()), rest),
+    }
+}
+
+/// `mapping.iter().filter_map(Result::ok)` over the injected stream (see util.rs).
+#[derive(Clone)]
+pub struct InjectedOk<'s> {
+    remaining: usize,
+    _p: core::marker::PhantomData<&'s ()>,
+}
+
+impl<'s> InjectedOk<'s> {
+    pub fn new(remaining: usize) -> Self {
+        Self { remaining, _p: core::marker::PhantomData }
+    }
+}
+
+impl<'s> Iterator for InjectedOk<'s> {
+    type Item = ProguardRecord<'s>;
+    fn next(&mut self) -> Option<ProguardRecord<'s>> {
+        loop {
+            if self.remaining == 0 {
+                return None;
+            }
+            let total = unsafe { TOTAL };
+            let it = item_at(total - self.remaining);
+            self.remaining -= 1;
+            if it.kind != K_ERR {
+                return it.record();
+            }
         }
     }
 }
 
-/// Stub with the exact signature of `mapping::parse_proguard_record`.
-pub fn parse_stub(bytes: &[u8]) -> (Result<ProguardRecord, ParseError>, &[u8]) {
-    let total = unsafe { TOTAL };
-    let idx = total - bytes.len();
-    let item: Item = item_at(idx);
-    (item, &bytes[1..])
-}
-
-/// Source-level injection point (inserted by tools/instrument.py at the top of
-/// `ProguardRecordIter::next` under cfg(kani)): when a stream is installed,
-/// serve the next injected item instead of parsing.
-pub fn active() -> bool {
-    unsafe { TOTAL != 0x7e57_0001 }
-}
-
-pub fn next_item<'s>(slice: &mut &'s [u8]) -> Option<Result<ProguardRecord<'s>, ParseError<'s>>> {
-    if slice.is_empty() {
-        return None;
+impl<'s> InjectedOk<'s> {
+    /// Inherent method: takes precedence over `Iterator::peekable`, so the builders'
+    /// `....peekable()` gets the model below instead of `std::iter::Peekable`.
+    /// Reason (measured): std's Peekable keeps `Option<Option<ProguardRecord>>`, whose
+    /// niche-encoded discriminant CBMC's symex cannot constant-fold; every `next()`
+    /// then merges a garbage "peeked" value with the real next record and the record
+    /// kinds of a concrete stream become symbolic.
+    pub fn peekable(self) -> InjectedPeekable<'s> {
+        InjectedPeekable { it: self, slot: ProguardRecord::Field { ty: "", original: "", obfuscated: "" } }
     }
-    let total = unsafe { TOTAL };
-    let idx = total - slice.len();
-    let item: Item = item_at(idx);
-    *slice = &slice[1..];
-    Some(item)
 }
 
-pub fn dbg_total(n: usize) {
-    unsafe { TOTAL = n; }
+/// Model of `Peekable<FilterMap<ProguardRecordIter, _>>` restricted to the two
+/// operations the builders use: `next()` and `peek()`. Same semantics: `peek`
+/// returns the item the following `next` will return, without consuming it.
+pub struct InjectedPeekable<'s> {
+    it: InjectedOk<'s>,
+    slot: ProguardRecord<'s>,
 }
-pub fn dbg_dummy(n: usize) -> &'static [u8] {
-    &DUMMY[..n]
+
+impl<'s> InjectedPeekable<'s> {
+    pub fn next(&mut self) -> Option<ProguardRecord<'s>> {
+        self.it.next()
+    }
+
+    pub fn peek(&mut self) -> Option<&ProguardRecord<'s>> {
+        let mut ahead = self.it.clone();
+        match ahead.next() {
+            Some(r) => {
+                self.slot = r;
+                Some(&self.slot)
+            }
+            None => None,
+        }
+    }
 }
-pub fn dbg_stream(recs: &[Item]) {
-    unsafe { STREAM[0] = Some(recs[0].clone()); }
+
+// ------------------------------------------------------------------ stream constructors
+
+pub fn cls(original: &'static str, obfuscated: &'static str) -> Item {
+    Item { kind: K_CLASS, a: original, b: obfuscated, ..BLANK }
+}
+
+pub fn mth(original: &'static str, obfuscated: &'static str, arguments: &'static str, original_class: Option<&'static str>, lm: Lm) -> Item {
+    match original_class {
+        Some(d) => Item { kind: K_METHOD, a: original, b: obfuscated, c: arguments, has_d: true, d, lm, ..BLANK },
+        None => Item { kind: K_METHOD, a: original, b: obfuscated, c: arguments, lm, ..BLANK },
+    }
+}
+
+pub fn fld(original: &'static str, obfuscated: &'static str) -> Item {
+    Item { kind: K_FIELD, a: original, b: obfuscated, ..BLANK }
+}
+
+pub fn hdr(key: &'static str, value: Option<&'static str>) -> Item {
+    match value {
+        Some(b) => Item { kind: K_HEADER, a: key, has_b: true, b, ..BLANK },
+        None => Item { kind: K_HEADER, a: key, ..BLANK },
+    }
+}
+
+/// An unparseable line (the real iterator yields an `Err` item for it).
+pub fn bad() -> Item {
+    BLANK
+}
+
+/// A symbolic line mapping as the parser can produce it (present => both range
+/// ends > 0; an original end only together with an original start). `limit`:
+/// exclusive upper bound on every number (the properties' domain is < 2^32-1),
+/// or 0 for unrestricted 64-bit numbers.
+pub fn any_lm(limit: usize) -> Lm {
+    if kani::any() {
+        some_lm(limit)
+    } else {
+        NO_LM
+    }
+}
+
+pub fn some_lm(limit: usize) -> Lm {
+    let s: usize = kani::any();
+    let e: usize = kani::any();
+    kani::assume(s > 0 && e > 0);
+    let has_os: bool = kani::any();
+    let os: usize = if has_os { kani::any() } else { 0 };
+    let has_oe: bool = has_os && kani::any();
+    let oe: usize = if has_oe { kani::any() } else { 0 };
+    if limit != 0 {
+        kani::assume(s < limit && e < limit && os < limit && oe < limit);
+    }
+    Lm { present: true, s, e, has_os, os, has_oe, oe }
+}
+
+/// A concrete line mapping `s:e:...:os:oe`.
+pub fn lm(s: usize, e: usize, os: Option<usize>, oe: Option<usize>) -> Lm {
+    Lm { present: true, s, e, has_os: os.is_some(), os: os.unwrap_or(0), has_oe: oe.is_some(), oe: oe.unwrap_or(0) }
 }
